@@ -15,7 +15,7 @@ invariants between caller buffers and lengths).
 """
 import re
 
-from . import effects, facts, ir, ptr, ranges, repo
+from . import effects, facts, ir, ptr, ranges, repo, widths
 
 LEVEL = "other"
 MANIFEST = {
@@ -74,13 +74,14 @@ def run(rep, tier):
     jobs.append((builds[0], dict(group="asconcrypt", level="O0")))
     jobs.append((builds[0], dict(group="asconsum", level="O0")))
     lowered = repo.lower_many(jobs)
-    for r in ("C12.D1", "C12.D1m", "C12.D2", "C12.D3", "C12.D4", "C12.D6", "C12.D7"):
+    for r in ("C12.D1", "C12.D1m", "C12.D2", "C12.D3", "C12.D4", "C12.D6", "C12.D7", "C12.D8"):
         rep.rule(r, {"C12.D1": "constant subscript inside its array",
                      "C12.D1m": "constant-extent block operation inside its object/member",
                      "C12.D2": "guard-bounded variable subscript below the array bound",
                      "C12.D3": "strlen(p)-K is guarded",
                      "C12.D4": "shift amount below operand width",
                      "C12.D6": "constant-extent access fits the guard-bounded remaining length",
+                     "C12.D8": "length arithmetic keeps the full width of size_t (no zero-extended 32-bit mask)",
                      "C12.D7": "bytes a callee always accesses through a pointer parameter fit the object passed at each call site"}[r])
     for (b, kw), lr in zip(jobs, lowered):
         m = ir.Module.load(lr.json)
@@ -106,7 +107,9 @@ def run(rep, tier):
                 rule_output_range(rep, m, f, dd, cname)
         rule_strlen_sub(rep, m, cname)
         rule_param_extent(rep, m, cname)
+        widths.rule(rep, "C12.D8", m, cname)
     control_d6(rep)
+    widths.control(rep, "C12.D8")
     rep.floor("C12.D1", 2000)
     rep.floor("C12.D1m", 300)
     rep.floor("C12.D2", 20)
